@@ -172,7 +172,13 @@ def run_property(prop, tier="quick", seed=0, write_baseline=False, only=None, ve
     solver_time = sum(v.time_s for v in verdicts.values()) + sum(v.time_s for v in cover_verdicts.values())
     wall_solve = time.time() - t_solve
     baseline = load_baseline().get(prop, [])
-    baseline_single = set(load_baseline().get("_single", {}).get(prop, []))
+    baseline_fp = load_baseline().get("_fp", {}).get(prop, {})
+    fps = {ob.name: solve.fingerprint(ob) for ob in proof_obs}
+
+    def same_problem(ob):
+        """the obligation is, up to generated names, the very problem that was discharged when the baseline was written"""
+        return baseline_fp.get(ob.name) == fps[ob.name]
+
     single = []
     known = [e for e in load_known() if e.get("property") == prop]
     violations, known_hits, proved = [], [], []
@@ -180,11 +186,11 @@ def run_property(prop, tier="quick", seed=0, write_baseline=False, only=None, ve
     for ob in proof_obs:
         v = verdicts[ob.name]
         if v.status == "proved":
-            if v.backend.endswith("(single)") and ob.name not in baseline_single and not write_baseline:
+            if v.backend.endswith("(single)") and not same_problem(ob) and not write_baseline:
                 # one solver's `unsat` that no second solver confirms counts only where that was reviewed on the
                 # unchanged tree (baseline); anywhere else it is left undecided (DESIGN 0.4)
                 undecided.append(f"{ob.name}: UNDECIDED (unsat from {v.backend} only; not confirmed by z3 4.8.12 / cvc5 and not in the "
-                                 "reviewed single-solver baseline)")
+                                 "problem recorded in the baseline)")
                 continue
             proved.append(ob)
             if v.backend.endswith("(single)"):
@@ -197,11 +203,13 @@ def run_property(prop, tier="quick", seed=0, write_baseline=False, only=None, ve
                                     "note": ob.info.get("why", ""), "trace": ob.trace[-12:], "inputs": None,
                                     "confirmed": False}))
             continue
-        if v.status == "unknown" and ob.name not in baseline:
-            undecided.append(f"{ob.name}: UNDECIDED ({v.reason})")
+        if v.status == "unknown" and (ob.name not in baseline or same_problem(ob)):
+            # a new obligation the solvers cannot decide, or the very problem of the baseline running out of budget
+            # (machine load): undecided, never a violation
+            undecided.append(f"{ob.name}: UNDECIDED ({v.reason})" + (" [identical to the baseline problem]" if same_problem(ob) else ""))
             continue
         info = refute(ob, v, prop, case_of(ob.name), ground_models.get(ob.name))
-        if v.backend == "z3-ground" and not info.get("confirmed") and ob.name not in baseline:
+        if v.backend == "z3-ground" and not info.get("confirmed") and (ob.name not in baseline or same_problem(ob)):
             # a candidate model of the ground relaxation that does not replay proves nothing
             undecided.append(f"{ob.name}: UNDECIDED (ground candidate did not replay; {v.reason})")
             continue
@@ -313,6 +321,10 @@ def run_property(prop, tier="quick", seed=0, write_baseline=False, only=None, ve
             "lemmas": lemmas,
             "structural_obligations": [{"name": n, "ok": ok, "detail": msg} for n, ok, msg in struct_results],
             "by_backend": by_backend,
+            "single_solver_proofs": sorted(single),
+            "second_solver_rule": "every unsat of z3 " + solve.z3.get_version_string() + " is re-checked by z3 4.8.12 (CLI) / cvc5; a proof no second "
+                                  "solver confirms counts only when the problem is, up to generated names, the one recorded in "
+                                  "baseline_obligations.json (fingerprint); a second solver answering sat makes the obligation undecided",
             "solver_time_s": round(solver_time, 2),
             "solver_wall_s": round(wall_solve, 2),
             "vacuity_checks": cover_summary,
@@ -340,6 +352,7 @@ def run_property(prop, tier="quick", seed=0, write_baseline=False, only=None, ve
         b = load_baseline()
         b[prop] = sorted(ob.name for ob in proved)
         b.setdefault("_single", {})[prop] = sorted(single)
+        b.setdefault("_fp", {})[prop] = {ob.name: fps[ob.name] for ob in proved}
         with open(BASELINE, "w") as f:
             json.dump(b, f, indent=0, sort_keys=True)
     print(f"{prop}: {n_dis}/{n_obl} obligations discharged over {len(functions)} functions/lemmas "
